@@ -390,6 +390,105 @@ func c15Extra(c *Ctx) {
 // c15Epoch: R11 - code compiled before an invalidation is not published after it.
 func c15Epoch(c *Ctx) {
 	jitPkg := "pkg/jit"
+	c.rule("C15-R13", "LCK/ATOM: an invalidation is one step: the functions that drop a route's compilation units also invalidate its type specialisations while they still hold JITCompiler.unitsMux exclusively, in the hold in which they bump the invalidation count - a compilation publishes under unitsMux.RLock if the count is unchanged, so a specialisation cache invalidated outside that hold (before the bump) can receive, between the two halves, code compiled from the old definition that nothing invalidates any more. And every table of the JIT that keeps code per route name (a map whose values hold bytecode, directly or in a struct or channel of results) is written by the invalidators: a table of compilations in flight that InvalidateCache does not touch hands the old definition's code to a request that arrives with the new one")
+	{
+		e13 := newLck(c, &lckConfig{rule: "C15-R13", pkgs: []string{jitPkg}, guards: nil})
+		n := 0
+		var invalidators []*ssa.Function
+		for _, name := range []string{"JITCompiler.InvalidateCache", "JITCompiler.ClearCache"} {
+			fn := c.mustFn("C15-R13", jitPkg, name)
+			if fn == nil {
+				continue
+			}
+			invalidators = append(invalidators, fn)
+			at, _ := e13.analyse(fn)
+			k := 0
+			eachInstr(fn, func(_ *ssa.BasicBlock, _ int, ins ssa.Instruction) {
+				cl, ok := ins.(*ssa.Call)
+				if !ok {
+					return
+				}
+				sf := staticFn(cl)
+				if sf == nil || sf.Signature.Recv() == nil || !typeIs(derefPtr(sf.Signature.Recv().Type()), modPath+"/"+jitPkg, "SpecializationCache") {
+					return
+				}
+				k++
+				n++
+				held := false
+				for cls, m := range at[ins] {
+					if strings.HasSuffix(cls, ".unitsMux") && m >= modeWrite {
+						held = true
+					}
+				}
+				c.ob("C15-R13", fnKey(fn)+"#specialisations-invalidated-in-the-hold-that-bumps-the-count-"+itoa(k), cl.Pos(), held, "the specialisation cache is invalidated outside the exclusive hold of unitsMux in which the units are dropped and the invalidation count is bumped: a type-specialised compilation of the old definition that publishes between the two halves adds an entry that is never invalidated, and every later request with those types is served the old code")
+			})
+		}
+		c.Sites["C15-R13#specialisation-invalidations"] = n
+		c.floor("C15-R13", 2)
+		// name-keyed tables that keep code
+		holdsCode := func(t types.Type) bool {
+			seen := map[types.Type]bool{}
+			var walk func(t types.Type, d int) bool
+			walk = func(t types.Type, d int) bool {
+				if d > 5 || seen[t] {
+					return false
+				}
+				seen[t] = true
+				switch u := t.Underlying().(type) {
+				case *types.Slice:
+					if b, ok := u.Elem().Underlying().(*types.Basic); ok && b.Kind() == types.Uint8 {
+						return true
+					}
+					return walk(u.Elem(), d+1)
+				case *types.Pointer:
+					return walk(u.Elem(), d+1)
+				case *types.Chan:
+					return walk(u.Elem(), d+1)
+				case *types.Map:
+					return walk(u.Elem(), d+1)
+				case *types.Struct:
+					for i := 0; i < u.NumFields(); i++ {
+						if walk(u.Field(i).Type(), d+1) {
+							return true
+						}
+					}
+				}
+				return false
+			}
+			return walk(t, 0)
+		}
+		if tn, ok := c.pkg(jitPkg).Types.Scope().Lookup("JITCompiler").(*types.TypeName); ok {
+			if st, ok := tn.Type().Underlying().(*types.Struct); ok {
+				for i := 0; i < st.NumFields(); i++ {
+					f := st.Field(i)
+					mt, isMap := f.Type().Underlying().(*types.Map)
+					if !isMap {
+						continue
+					}
+					if kb, ok := mt.Key().Underlying().(*types.Basic); !ok || kb.Kind() != types.String || !holdsCode(mt.Elem()) {
+						continue
+					}
+					for _, inv := range invalidators {
+						touched := false
+						eachInstr(inv, func(_ *ssa.BasicBlock, _ int, ins ssa.Instruction) {
+							switch x := ins.(type) {
+							case *ssa.Store:
+								if isStoreToField(x, "JITCompiler", f.Name()) {
+									touched = true
+								}
+							case *ssa.Call:
+								if (callName(x) == "builtin.delete" || callName(x) == "builtin.clear") && loadedFromField(x.Call.Args[0], "JITCompiler", f.Name()) {
+									touched = true
+								}
+							}
+						})
+						c.ob("C15-R13", fnKey(inv)+"#drops:"+f.Name(), inv.Pos(), touched, "JITCompiler."+f.Name()+" keeps code per route name and "+inv.Name()+" does not write it: what it holds for the old definition (a compilation in flight that later requests join, a second cache) outlives the invalidation")
+					}
+				}
+			}
+		}
+	}
+
 	c.rule("C15-R11", "GEN: every function of pkg/jit that compiles (calls compileWithTier / CompileWithTypeInfo, outside the cache lock) and then publishes the result (store into JITCompiler.units, into a cached unit's Bytecode, or AddSpecialization) publishes only on the equal edge of a comparison between JITCompiler.epoch and the value it read before compiling; every function that removes units (delete / re-make of JITCompiler.units) increments the epoch. Without it a compilation that was overtaken by InvalidateCache + a compilation of the new definition caches the old definition's code afterwards")
 	isCompile := func(x ssa.Instruction) bool {
 		call, ok := x.(*ssa.Call)
